@@ -221,7 +221,7 @@ PROPS = {
     'C04': dict(
         title='Zinc text conforms to the Project Haystack grammar in both directions',
         verus=[('u_zparse', [r'^parse_str_escape$', r'^parse_str_unicode_escape$', r'^parse_str$', r'^Lexer::read$', r'^parse_literal$', r'^parse_id$', r'^lemma_lit_run_bytes$', r'^parse_unit$', r'^is_unit_char$']),
-               ('u_enc', [r'^write_quoted_str$', r'^Str::to_zinc$', r'^Marker::to_zinc$', r'^Remove::to_zinc$', r'^Na::to_zinc$', r'^Bool::to_zinc$', r'^Number::to_zinc$'])],
+               ('u_enc', [r'^write_quoted_str$', r'^write_str$', r'::to_zinc$', r'::zinc_encode$', r'^list_to_zinc$', r'^write_dict_tags$', r'^Column::to_zinc$', r'^Dict::to_zinc$', r'^Grid::to_zinc$', r'^Value::to_zinc$', r'^lemma_ver_line$', r'^enc_(value|items|tag|tags|meta|col|cols|cells|rows|grid)$', r'^grid_head$', r'^dict_find$'])],
         kani=[dict(harness='k_scanner_classes', klass='complete', schema=['u8'], family=None, target='Scanner::is_* byte classes'),
               dict(harness='k_unit_char_class', klass='complete', schema=['u8'], family=None, target='zinc number::is_unit_char'),
               dict(harness='k_u8_classes', klass='complete', schema=['u8'], family=None, target='u8::is_ascii_*')],
@@ -234,27 +234,33 @@ PROPS = {
                     'the byte set written in the contracts; \\uXXXX consumes four hex digits and denotes that UTF-16 unit (U+FFFD for a lone surrogate); a string literal denotes str_body of its bytes. Verus also proves on the real bodies that a literal / identifier / unit is exactly '
                     'the maximal run of its class at the head of the input (nothing else consumed), and that a capitalised literal not '
                     'followed by ( is decoded by the keyword table of the grammar: M R T F N NA NaN INF, anything else is an error. Writer side: '
-                    'the keyword writers emit M R NA T F and the quoted-string writer emits " + enc(s) + " with enc written from the grammar.'),
+                    'the keyword writers emit M R NA T F and the quoted-string writer emits " + enc(s) + " with enc written from the grammar. '
+                    'Composite layout: a recursive specification enc_value of the grammar\'s list, dict and grid productions (commas between items and none '
+                    'after the last, name[:value] tags with the value omitted for markers, ver:"3.0" line, space-separated meta, column line, one line '
+                    'per row with an empty cell for an absent tag, empty marker for a grid without rows, << >> around a nested grid and only there) is '
+                    'proved to be exactly what the real List/Dict/Grid/Column/Value writers emit, for every value tree, with nested values always '
+                    'written in inner-grid mode; DateTime is RFC 3339 text followed by a space and the zone name exactly when the value is not UTC.'),
         not_decided=('number spelling '
-                     '(the string handed to str::parse::<f64>); the writer side other than keywords and quoted strings (write!/core::fmt, '
-                     'enumerate() loops); Date/Time/DateTime/Coord text; whole-document layout. The unit class tests `> 128`, i.e. excludes '
+                     '(the string handed to str::parse::<f64>); the text core::fmt / chrono produce for numbers, dates, times, coordinates and the '
+                     'capitalised XStr type (uninterpreted functions of the value); Uri (trusted, `continue` in `for`); the reader side of composite layout '
+                     '(the decoder is proved panic-free and terminating, not against enc_value); Dict is seen through its entry list in key order. The unit class tests `> 128`, i.e. excludes '
                      'byte 0x80 that the grammar admits -- harmless: no database unit contains it (C15 lemma).'),
         technique='contract-based deductive verification: Verus per-letter postconditions on the real body + Kani complete byte-class harnesses',
     ),
     'C10': dict(
         title='Encoders never panic on any constructible value',
-        verus=[('u_enc', [r'::to_zinc$', r'^write_str$', r'^write_quoted_str$', r'^Error::<From<std::io::Error>>::from$'])],
+        verus=[('u_enc', [r'::to_zinc$', r'::to_zinc_body$', r'::zinc_encode$', r'^list_to_zinc$', r'^write_dict_tags$', r'^write_str$', r'^write_quoted_str$', r'^Error::<From<std::io::Error>>::from$', r'^InnerGrid::'])],
         kani=[dict(harness='k_json_number_exact', klass='complete', schema=['f64'], family='json-number', target='<Number as Serialize>::serialize (panic-free over all f64)'),
               dict(harness='k_zinc_keywords', klass='complete', schema=['u8'], family=None, target='to_zinc of Marker/Remove/Na/Bool')],
         witness='enum:zinc-encode-panics',
         design_ref='DESIGN.md section 4, C10',
         level_text=('Proof (Verus, unbounded, no precondition on the value): the scalar Zinc writers -- Marker, Remove, NA, Bool, Number, '
-                    'Date, Time, DateTime, Str, Ref, Symbol, XStr, Coord, and the shared quoted-string writer -- return Ok and cannot panic '
+                    'Date, Time, DateTime, Str, Ref, Symbol, XStr, Coord, the shared quoted-string writer -- and the collection writers List, Dict, Grid '
+                    '(incl. zero columns with rows, zero rows, nested grids), Column, write_dict_tags and the recursive Value dispatcher return Ok and cannot panic '
                     'for any field values (every String ranges over all strings incl. empty and non-ASCII); string slicing, where it occurs, '
                     'carries std\'s panic condition as a precondition (rule R13). Kani: Number::serialize (Hayson) is panic-free over all f64.'),
         not_decided=('Uri::to_zinc (its `continue` inside `for` is outside this Verus; trusted: it only writes to a Vec); the collection writers '
-                     '(List, Dict, Grid, Column, write_dict_tags: enumerate() loops; their only partial operation is len()-1 under i < len, '
-                     'evaluated inside a non-empty iteration -- an argument, not a proof); Display/to_string wrappers; serde Serialize impls '
+                     'are proved on index loops obtained from their enumerate() loops by rule R19 (trusted: Enumerate over a slice iterator yields (i, &v[i])); Display/to_string wrappers; serde Serialize impls '
                      'other than Number; core::fmt itself (assumed not to fail or panic for the literals used); recursion depth.'),
     ),
     'C17': dict(
